@@ -50,4 +50,13 @@ PROPS = {
         "c17_* theorems: per verdict, what new snapshots read; the filter never influences the result through tombstones; other keys untouched; output stays sorted. Old snapshots: C02.",
         "verdict functions are deterministic in (key, value); RemoveWeak/Destroy only claimed for write-once keys, as the property states",
         "7 C17"),
+    "C02": entry(
+        "A snapshot keeps returning the same answers until it is released",
+        [ia("supers", 2000, 50000), ib("snap", 400, 20000, blob=2, ops=60)],
+        "I-A: SuperVersions::maintenance / get_version_for_snapshot on generated histories (equal seqnos, S=0, watermarks around entries) vs model + C02 oracle; "
+        "I-B: histories with up to three concurrently held snapshots (each taken from the visible counter), every key re-read by point lookup and full scan from both ends at every held snapshot after every later op (writes, flushes, all compactions, filters, ingestion, drop_range, clear) with watermarks <= min live snapshot; model state compared after every op; non-trivial = >= 1 version-changing compaction and >= 2 flushes",
+        TECH,
+        "c02_snapshot_stable_point / _scan: for every reachable state, every snapshot S (0 < S <= counter, in particular S = visible) and EVERY later operation sequence with GC watermarks <= S, point reads and scans (all bounds, all next/next_back words, optional overlay) at S are unchanged. Proved on the very step function (applyOp) the driver executes; the hypotheses are shown necessary by counterexamples.",
+        "snapshot isolation rests on super-version pinning; S = 0 (no snapshot) excluded; reopen releases snapshots",
+        "7 C02"),
 }
